@@ -533,3 +533,512 @@ def _trace_worker(case):
     if _FDESC[0] is None:
         _FDESC[0] = dump_funcs()
     return replay_trace(case)
+
+
+# ------------------------------------------------------------------ part 2: module trees
+_POL = [None]
+
+
+def _tree_classes():
+    import onnx_ir as ir
+
+    from onnxscript import nn
+
+    def visit(op, ch, x):
+        pol = _POL[0]
+        if isinstance(ch, nn.Sequential):
+            if pol["sp"] == "call":
+                return ch(op, x)
+            for m in ch:                      # iterated by the parent like a ModuleList
+                x = m(op, x)
+            return x
+        if isinstance(ch, nn.ModuleList):
+            lp = pol["lp"]
+            if lp == "rev":
+                seq = list(ch[::-1])
+            elif lp == "slices":
+                seq = list(ch[:1]) + list(ch[1:])
+            elif lp == "index":
+                seq = [ch[i] for i in range(len(ch))]
+            else:
+                seq = list(ch)
+            for m in seq:
+                x = visit(op, m, x)
+            return x
+        return ch(op, x)
+
+    class Lin(nn.Module):
+        def __init__(self, pid, name=None):
+            super().__init__(name)
+            self.pid = pid
+            self.w = nn.Parameter([2], dtype=ir.DataType.INT64, data=ir.tensor(np.array([pid, pid], dtype=np.int64)))
+            self.w.pid = pid
+
+        def forward(self, op, x):
+            x = op.Add(op.Mul(x, 2), self.w)
+
+            def kids(op2, x2):
+                for _, ch in list(self._modules.items()):
+                    x2 = visit(op2, ch, x2)
+                return x2
+
+            if _POL[0]["sub"] == self.pid and self._modules:
+                cond = op.Cast(op.Constant(value_int=1), to=9)
+                def then(o2):
+                    r = kids(o2, x)
+                    return o2.Identity(r) if r is x else r      # a branch must produce its own output
+
+                tb = op.builder.subgraph(then, inputs=[], outputs=[ir.Value(name=f"t_{self.pid}")], name="then")
+                eb = op.builder.subgraph(lambda o2: o2.Identity(x), inputs=[], outputs=[ir.Value(name=f"e_{self.pid}")], name="else")
+                return op.If(cond, then_branch=tb, else_branch=eb)
+            return kids(op, x)
+
+    return nn, Lin
+
+
+def build_tree(case):
+    nn, Lin = _tree_classes()
+    none = "<none>"
+    objs = [None]
+    rk, rn = case["rootkind"], case["rootname"]
+    objs.append(Lin(1, None if rn == none else rn) if rk == "M" else nn.Sequential())
+    for h in case["hist"]:
+        if h[0] == "new":
+            pid = len(objs)
+            objs.append(Lin(pid, None if h[2] == none else h[2]) if h[1] == "M" else (nn.ModuleList() if h[1] == "L" else nn.Sequential()))
+        elif h[0] == "setattr":
+            p, c = divmod(h[3], 100)
+            setattr(objs[p], h[1], objs[c])
+        elif h[0] == "append":
+            l, c = divmod(h[3], 100)
+            objs[l].append(objs[c])
+    return objs
+
+
+def _trace_tree(root):
+    import onnx_ir as ir
+
+    from onnxscript._internal import builder as B
+
+    g = ir.Graph(name="main", inputs=[], outputs=[], nodes=[], opset_imports={"": OPSET})
+    gb = B.GraphBuilder(g)
+    x = gb.input("x", ir.DataType.INT64, [2])
+    out = root(gb.op, x)
+    return g, gb, out
+
+
+def replay_tree(case):
+    import onnx
+    import onnx_ir as ir
+    import onnxruntime as ort
+
+    ort.set_default_logger_severity(4)
+    _POL[0] = case["pol"]
+    obs = {"err": None}
+    try:
+        objs = build_tree(case)
+        root = objs[1]
+        sd = list(root.state_dict().keys())
+        obs["state_dict"] = sd
+        obs["named_parameters"] = [k for k, _ in root.named_parameters()]
+        byid = {id(p): k for k, p in root.named_parameters()}
+        g, gb, out = _trace_tree(root)
+    except Exception as ex:  # noqa: BLE001
+        obs["err"] = f"{type(ex).__name__}: {str(ex)[:300]}"
+        return obs
+    obs["scope_left"] = list(gb._scope_stack)  # noqa: SLF001
+    obs["inits"] = [[k, getattr(v, "pid", 0)] for k, v in g.initializers.items() if getattr(v, "pid", 0)]
+    obs["other_inits"] = [k for k, v in g.initializers.items() if not getattr(v, "pid", 0)]
+    obs["param_names"] = sorted([p.name, p.pid] for p in root.parameters())
+    gb.add_output(out, None)
+    if out.type is None:
+        out.type = ir.TensorType(ir.DataType.INT64)
+    if out.shape is None:
+        out.shape = ir.Shape([2])
+    try:
+        mp = ir.serde.serialize_model(ir.Model(g, ir_version=10))
+        obs["abstract"] = core.abstract_model("m", mp)
+        obs["nodes"] = real_nodes(g)
+        try:
+            onnx.checker.check_model(mp, full_check=True)
+            obs["checker"] = "ok"
+        except Exception as ex:  # noqa: BLE001
+            obs["checker"] = f"{type(ex).__name__}: {str(ex)[:240]}"
+        r = core.ort_session(mp).run(None, {"x": np.array([1, 1], dtype=np.int64)})[0]
+        obs["value"] = [int(v) for v in r]
+    except Exception as ex:  # noqa: BLE001
+        obs["run_err"] = f"{type(ex).__name__}: {str(ex)[:300]}"
+    # the same tree built into a second graph
+    try:
+        g2, _, _ = _trace_tree(root)
+        obs["second"] = [k for k, v in g2.initializers.items() if getattr(v, "pid", 0)]
+    except Exception as ex:  # noqa: BLE001
+        obs["second_err"] = f"{type(ex).__name__}: {str(ex)[:200]}"
+    return obs
+
+
+# ------------------------------------------------------------------ judging
+_REPORTED = {}
+
+
+def _report(ctx, case, what, finding=None):
+    """ctx.report, but an (as yet unlisted) deviation id is reported for at most 25 cases per run: the finding is one defect,
+    not thousands of replay files.  Failures without a deviation id are always reported."""
+    if finding is not None and ctx.known_finding(finding) is None:
+        _REPORTED[finding] = _REPORTED.get(finding, 0) + 1
+        ctx.add("cases_of_" + finding)
+        if _REPORTED[finding] > 25:
+            return
+        what = f"[model: deviation {finding}] " + what
+    ctx.report(case, what, finding=finding)
+
+
+def _dups(obs_nodes, extra_values):
+    """duplicate value / node names of a real graph with the graph path of every definition"""
+    vdefs, ndefs = {}, {}
+
+    def walk(nodes, path):
+        for i, n in enumerate(nodes):
+            ndefs.setdefault(n["nm"], []).append(path)
+            for o in n["outs"]:
+                if o:
+                    vdefs.setdefault(o, []).append(path)
+            for j, g in enumerate(n["subs"]):
+                sp = f"{path}/{i}.{j}"
+                for x in g["ins"]:
+                    vdefs.setdefault(x, []).append(sp)
+                walk(g["nodes"], sp)
+
+    for x in extra_values:
+        vdefs.setdefault(x, []).append("")
+    walk(obs_nodes, "")
+    dv = {k: v for k, v in vdefs.items() if len(v) > 1}
+    dn = {k: v for k, v in ndefs.items() if len(v) > 1}
+    return dv, dn
+
+
+def _cross_graph(d):
+    """the guard of deviation subgraph_name_reuse: every repeated name is defined in at least two different graphs"""
+    return bool(d) and all(len(set(paths)) > 1 for paths in d.values())
+
+
+def prog_size(stmts):
+    n = 0
+    for s in stmts:
+        if s["kind"] not in ("push", "pop"):
+            n += 1
+        for b in s["subs"]:
+            n += prog_size(b["body"])
+    return n
+
+
+def prog_features(stmts, acc=None):
+    acc = set() if acc is None else acc
+    for s in stmts:
+        acc.add(s["kind"])
+        if s["kind"] == "op":
+            acc.add("op:" + s["op"])
+        if any(a["a"] == "l" for a in s["args"]):
+            acc.add("literal")
+        if s["ospec"]["m"] in ("names", "vals"):
+            acc.add("explicit_outputs")
+        for b in s["subs"]:
+            prog_features(b["body"], acc)
+    return acc
+
+
+def judge_trace(ctx, case, obs, wf):
+    """property verdicts (ctx.report) + model agreement; returns number of SPEC-MISMATCHes"""
+    mism = []
+    why = list(case["why"])
+    small = {"prog": case["prog"], "outs": case["outs"], "names": case["names"], "model": {"outcome": case["outcome"], "why": why, "uniq": case["uniq"]},
+             "kind": "trace"}
+    exp = [[{"dt": t["dt"], "shape": list(t["shape"]), "data": list(t["data"])} for t in row] for row in case["exp"]]
+    if obs["np"] != exp:
+        mism.append(f"TLC's Replay {exp} differs from the NumPy replay {obs['np']}")
+    if obs["outcome"] != case["outcome"]:
+        mism.append(f"outcome: model {case['outcome']}, builder {obs['outcome']} ({obs['err']})")
+    # ---- property
+    if obs["outcome"] == "raise":
+        _report(ctx, dict(small, observed=obs["err"]), f"the builder raised on a traced call that the property covers: {obs['err']}",
+                   finding="inline_raw_python_args" if "inline_raw_python_args" in why else None)
+        return mism
+    mnodes = model_nodes(case["nodes"], case["names"])
+    if obs["nodes"] != mnodes:
+        mism.append("node tree (names / operands) differs from the model's")
+    minits = [{"nm": c["nm"], "dt": c["dt"], "shape": list(c["shape"]), "data": list(c["data"])} for c in case["inits"]]
+    if obs["inits"] != minits:
+        mism.append(f"initializers {obs['inits']} differ from the model's {minits}")
+    if obs["outcome"] == "invalid":
+        fid = "inline_default_attr_dropped" if "inline_default_attr_dropped" in why else ("subgraph_name_reuse" if "subgraph_name_reuse" in why else None)
+        _report(ctx, dict(small, observed=obs["err"]), f"the built model is not valid: {obs['err']}", finding=fid)
+        return mism
+    dv, dn = _dups(obs["nodes"], INPUT_NAMES + [i["nm"] for i in obs["inits"]])
+    uniq = not dv and not dn
+    if uniq != case["uniq"]:
+        mism.append(f"name uniqueness: model {case['uniq']}, builder {uniq} ({list(dv)[:3]} {list(dn)[:3]})")
+    ssa_tla = all(w[0] for w in wf) if wf else None
+    if wf is not None and (ssa_tla is False) != bool(dv):
+        mism.append(f"Graph.tla SSA verdict {ssa_tla} disagrees with the Python duplicate scan {list(dv)[:3]}")
+    if not uniq:
+        fid = "subgraph_name_reuse" if _cross_graph(dict(dv, **{"node:" + k: v for k, v in dn.items()})) else None
+        _report(ctx, dict(small, duplicate_values=dv, duplicate_nodes=dn),
+                   f"names are not unique: values {sorted(dv)[:4]} nodes {sorted(dn)[:4]}", finding=fid)
+    if obs["checker"] != "ok":
+        fid = "subgraph_name_reuse" if (not uniq and _cross_graph(dict(dv, **{"node:" + k: v for k, v in dn.items()}))) else None
+        _report(ctx, dict(small, observed=obs["checker"]), f"onnx.checker rejects the built model: {obs['checker']}", finding=fid)
+    if wf is not None and not all(all(w[1:]) for w in wf):
+        _report(ctx, dict(small, wf=[list(w) for w in wf]), f"Graph.tla WF fails on the built model (scoped, outputs, imports): {wf}")
+    if obs["ort"] != obs["np"]:
+        fid = "subgraph_name_reuse" if (dv and _cross_graph(dv)) else None
+        _report(ctx, dict(small, ort=obs["ort"], numpy=obs["np"]), f"onnxruntime on the built graph gives {obs['ort']}, the NumPy replay of the trace {obs['np']}", finding=fid)
+    return mism
+
+
+def judge_tree(ctx, case, obs, wf):
+    mism = []
+    why = sorted(case["why"])
+    small = {"kind": "tree", "hist": case["hist"], "pol": case["pol"], "rootkind": case["rootkind"], "rootname": case["rootname"]}
+    if obs.get("err"):
+        _report(ctx, dict(small, observed=obs["err"]), f"building/tracing the module tree raised: {obs['err']}")
+        return mism
+    pre = "" if case["rootname"] == "<none>" else case["rootname"] + "."
+    expected = [pre + k for k in obs["state_dict"]]           # the property's reference: the real state_dict()
+    if expected != [e["k"] for e in case["keys"]]:
+        mism.append(f"state_dict keys {expected} differ from the model's {[e['k'] for e in case['keys']]}")
+    if obs["named_parameters"] != obs["state_dict"]:
+        _report(ctx, dict(small, observed=obs), f"named_parameters() {obs['named_parameters']} and state_dict() {obs['state_dict']} disagree")
+    # the model's registrations as the dict the code keeps (a repeated name keeps its place and takes the last tensor)
+    md = {}
+    for e in case["inits"]:
+        md[e["k"]] = e["p"]
+    if obs["inits"] != [[k, p] for k, p in md.items()]:
+        mism.append(f"initializers {obs['inits']} differ from the model's {[[k, p] for k, p in md.items()]}")
+    if obs.get("value") != [case["value"]] * 2 and "run_err" not in obs:
+        mism.append(f"value {obs.get('value')} differs from the model's {case['value']}")
+    if obs.get("second") != list(case["second"]):
+        mism.append(f"second build {obs.get('second')} differs from the model's {case['second']}")
+    # ---- property
+    names = [k for k, _ in obs["inits"]]
+    nparams = len(obs["state_dict"])
+    if sorted(names) != sorted(expected) or len(names) != nparams:
+        fid = why[0] if (why and not mism) else None
+        _report(ctx, dict(small, initializers=obs["inits"], expected=expected),
+                   f"parameter initializers {names} are not root name + state_dict keys {expected}", finding=fid)
+    if obs.get("scope_left"):
+        _report(ctx, dict(small, scope=obs["scope_left"]), f"scope stack not balanced after tracing: {obs['scope_left']}")
+    if "run_err" in obs:
+        _report(ctx, dict(small, observed=obs["run_err"]), f"the built model cannot be serialized/run: {obs['run_err']}", finding=(why[0] if why and not mism else None))
+    else:
+        if obs["value"] != [case["dvalue"]] * 2:
+            _report(ctx, dict(small, value=obs["value"], expected=case["dvalue"]),
+                       f"the graph computes {obs['value']} but the traced calls with each module's own parameter give {case['dvalue']}",
+                       finding=(why[0] if why and not mism else None))
+        if obs.get("checker") != "ok":
+            _report(ctx, dict(small, observed=obs["checker"]), f"onnx.checker rejects the built model: {obs['checker']}")
+        dv, dn = _dups(obs["nodes"], ["x"] + [k for k, _ in obs["inits"]] + obs["other_inits"])
+        if dv or dn:
+            fid = "subgraph_name_reuse" if _cross_graph(dict(dv, **{"node:" + k: v for k, v in dn.items()})) else None
+            _report(ctx, dict(small, duplicate_values=dv, duplicate_nodes=dn), f"names are not unique: values {sorted(dv)[:4]} nodes {sorted(dn)[:4]}", finding=fid)
+    if nparams and obs.get("second") != expected:
+        _report(ctx, dict(small, second=obs.get("second"), expected=expected),
+                   f"building the same tree into a second graph registers {obs.get('second')} instead of {expected}",
+                   finding="realized_sticky" if obs.get("second") == [] else None)
+    return mism
+
+
+# ------------------------------------------------------------------ run
+def _tlc_jobs(jobs):
+    """run several TLC jobs side by side (each is its own JVM); jobs: {label: kwargs of core.run_tlc}"""
+    import concurrent.futures as cf
+
+    out = {}
+    with cf.ThreadPoolExecutor(max_workers=len(jobs)) as ex:
+        futs = {k: ex.submit(core.run_tlc, **kw) for k, kw in jobs.items()}
+        for k, f in futs.items():
+            out[k] = f.result()
+    return out
+
+
+def _cases(res, tag):
+    return [json.loads(p[1]) for p in res.printed if p and p[0] == tag]
+
+
+def walk(stmts):
+    for s in stmts:
+        yield s
+        for b in s["subs"]:
+            yield from walk(b["body"])
+
+
+def run(ctx: core.Ctx):
+    env = spec_env()
+    q = ctx.quick
+    w = max(2, core.NCPU // 3)
+    jobs = {
+        "Builder exhaustive": dict(module="Builder", cfg="Builder_quick.cfg" if q else "Builder_thorough.cfg", env=env, workers=w, timeout=3000),
+        "Builder simulate": dict(module="Builder", cfg="Builder_sim.cfg", env=env, workers=w, simulate=f"num={14 if q else 260}", depth=45,
+                                 seed=ctx.seed + 1, timeout=3000),
+        "Builder design": dict(module="Builder", cfg="Builder_design.cfg", env=env, workers=2, timeout=3000),
+        "Builder vacuity": dict(module="Builder", cfg="Builder_vacuity.cfg", env=env, workers=1, timeout=1500),
+        "ModuleTree exhaustive": dict(module="ModuleTree", cfg="ModuleTree_quick.cfg" if q else "ModuleTree_thorough.cfg", workers=2 if q else w, timeout=3000),
+        "ModuleTree simulate": dict(module="ModuleTree", cfg="ModuleTree_sim.cfg", workers=2, simulate=f"num={60 if q else 1500}", depth=24,
+                                    seed=ctx.seed + 2, timeout=3000),
+        "ModuleTree design": dict(module="ModuleTree", cfg="ModuleTree_design.cfg", workers=1, timeout=1500),
+        "ModuleTree vacuity": dict(module="ModuleTree", cfg="ModuleTree_vacuity.cfg", workers=1, timeout=1500),
+    }
+    res = _tlc_jobs(jobs)
+    for label, r in res.items():
+        ctx.tlc(r, label)
+        if label.endswith("vacuity"):
+            if r.ok:
+                raise core.MachineryError(f"vacuity: witness invariant of {label} was never violated")
+        elif not r.ok or r.violated:
+            raise core.MachineryError(f"TLC reports {r.violated} in {label}:\n{r.out[-2000:]}")
+    rng = random.Random(ctx.seed)
+
+    # ---------------- part 1: traces
+    seen = set()
+    traces = []
+    for label in ("Builder exhaustive", "Builder simulate"):
+        for c in _cases(res[label], "CASE"):
+            key = json.dumps(c["prog"], sort_keys=True)
+            if key not in seen:
+                seen.add(key)
+                c["src"] = label
+                traces.append(c)
+    ctx.set("spec_traces", len(traces))
+    if not traces:
+        raise core.MachineryError("TLC printed no trace")
+    for c in traces:
+        if not c["consistent"]:
+            raise core.MachineryError(f"spec: stepwise values and full Replay differ on {json.dumps(c['prog'])[:300]}")
+    feats = [prog_features(c["prog"]) for c in traces]
+    witnesses = {
+        "a subgraph inside a subgraph": any(any(s["kind"] in ("if", "loop", "scan") for b in t["subs"] for s in walk(b["body"])) for c in traces for t in walk(c["prog"]) if t["subs"]),
+        "an inlined function in a loadable model": any("inline" in f and c["outcome"] == "ok" for f, c in zip(feats, traces)),
+        "a dynamic CastLike helper": any(any(n["hid"] and not n["tk"] for n in c["names"]) for c in traces),
+        "names repeated across graphs": any("subgraph_name_reuse" in c["why"] for c in traces),
+        "Scan": any("scan" in f for f in feats), "Loop": any("loop" in f for f in feats), "If": any("if" in f for f in feats),
+        "function call": any("call" in f for f in feats), "push_module": any("push" in f for f in feats),
+    }
+    missing = [k for k, v in witnesses.items() if not v]
+    if missing:
+        raise core.MachineryError(f"vacuity: no derived trace has {missing}")
+    ops_seen = {x[3:] for f in feats for x in f if x.startswith("op:")}
+    ctx.set("operators_exercised", len(ops_seen) + 3)
+    if not q and set(MENU) - ops_seen:
+        raise core.MachineryError(f"operators never derived: {sorted(set(MENU) - ops_seen)}")
+    if q and len(traces) > 2600:      # keep every case the implementation model marks as deviating, sample the rest
+        dev = [c for c in traces if c["why"]]
+        rest = [c for c in traces if not c["why"]]
+        rng.shuffle(rest)
+        rng.shuffle(dev)
+        traces = dev[:500] + rest[: 2600 - min(500, len(dev))]
+    obs = core.pmap_safe(_trace_worker, traces, timeout=120)
+    items = []
+    for i, o in enumerate(obs):
+        if isinstance(o, dict) and o.get("abstract"):
+            items += [dict(it, id=f"t{i}:{it['id']}") for it in o["abstract"]]
+    # ---------------- part 2: trees
+    trees = []
+    seen = set()
+    for label in ("ModuleTree exhaustive", "ModuleTree simulate"):
+        for c in _cases(res[label], "TREE"):
+            key = json.dumps([c["hist"], c["pol"], c["rootkind"], c["rootname"]], sort_keys=True)
+            if key not in seen:
+                seen.add(key)
+                trees.append(c)
+    ctx.set("spec_trees", len(trees))
+    if not any(c["depth"] == 4 for c in trees):
+        raise core.MachineryError("vacuity: no module tree of depth 4 derived")
+    for k in ("M", "L", "S"):
+        if not any(any(o["kind"] == k for o in c["objs"][1:]) for c in trees):
+            raise core.MachineryError(f"vacuity: no tree with a child of kind {k}")
+    cap = 1500 if q else 40000
+    if len(trees) > cap:
+        dev = [c for c in trees if c["why"]]
+        rest = [c for c in trees if not c["why"]]
+        rng.shuffle(dev)
+        rng.shuffle(rest)
+        trees = dev[: cap // 3] + rest[: cap - min(len(dev), cap // 3)]
+    tobs = core.pmap_safe(replay_tree, trees, timeout=120)
+    tsel = set(rng.sample(range(len(trees)), min(len(trees), 250 if q else 3000)))
+    for i, o in enumerate(tobs):
+        if i in tsel and isinstance(o, dict) and o.get("abstract"):
+            items += [dict(it, id=f"m{i}:{it['id']}") for it in o["abstract"]]
+    wf = core.graphcheck(ctx, items, "GraphCheck (Graph.tla WF on the built protos)")
+    by = {}
+    for k, v in wf.items():
+        by.setdefault(k.split(":", 1)[0], []).append(v)
+
+    # ---------------- verdicts
+    nmis = 0
+    nontriv = set()
+    for i, (c, o) in enumerate(zip(traces, obs)):
+        ctx.add("evaluations")
+        if o is core.HANG:
+            ctx.report({"prog": c["prog"], "kind": "trace"}, "replaying the trace into GraphBuilder did not finish within 120 s")
+            continue
+        if isinstance(o, core.MachineryErrorResult):
+            raise core.MachineryError(f"trace replay failed: {o.msg}\n{json.dumps(c['prog'])[:600]}")
+        ctx.add("traces_validated_against_impl")
+        f = prog_features(c["prog"])
+        if f & {"if", "loop", "scan", "call", "inline", "literal", "explicit_outputs", "push"}:
+            nontriv.add(json.dumps(c["prog"], sort_keys=True))
+        mm = judge_trace(ctx, c, o, by.get(f"t{i}"))
+        for m in mm:
+            nmis += 1
+            if nmis <= 12:
+                print(f"SPEC-MISMATCH C18 trace: {m}\n   program: {json.dumps(c['prog'])[:700]}", flush=True)
+        if i % 400 == 0:
+            ctx.sample({"program": c["prog"], "outcome": o["outcome"], "ort": o["ort"], "numpy": o["np"]}, limit=3)
+    for i, (c, o) in enumerate(zip(trees, tobs)):
+        ctx.add("evaluations")
+        if o is core.HANG:
+            ctx.report({"hist": c["hist"], "kind": "tree"}, "building the module tree did not finish within 120 s")
+            continue
+        if isinstance(o, core.MachineryErrorResult):
+            raise core.MachineryError(f"tree replay failed: {o.msg}\n{json.dumps(c['hist'])[:600]}")
+        ctx.add("traces_validated_against_impl")
+        if len(c["objs"]) >= 2:
+            nontriv.add(json.dumps([c["hist"], c["pol"], c["rootkind"], c["rootname"]]))
+        mm = judge_tree(ctx, c, o, by.get(f"m{i}"))
+        for m in mm:
+            nmis += 1
+            if nmis <= 12:
+                print(f"SPEC-MISMATCH C18 tree: {m}\n   construction: {json.dumps(c['hist'])} policy {c['pol']}", flush=True)
+        if i % 500 == 0:
+            ctx.sample({"construction": c["hist"], "policy": c["pol"], "initializers": o.get("inits"), "state_dict": o.get("state_dict")}, limit=6)
+    ctx.set("model_impl_mismatches", nmis)
+    ctx.set("distinct_nontrivial", len(nontriv))
+    ctx.set("exhaustive", False)
+    ctx.set("rule", "traces = 'done' states of Builder.tla: exhaustive over a small menu (cfg) plus random derivations (-simulate) over the full menu "
+                    "(41 operators + If/Loop/Scan, literals, _outputs forms, push/pop_module, call/call_inline of 4 functions); trees = 'done' states of "
+                    "ModuleTree.tla (all construction orders x call policies up to MaxObjs, plus simulated trees of 5-6 modules, depth <= 4); "
+                    "non-trivial = distinct program with a subgraph / function / literal / explicit output / scope, or tree with >= 2 modules; "
+                    "every case is built with the real GraphBuilder / onnxscript.nn and run on 2 inputs")
+    ctx.assumptions += [
+        "values are INT64 / BOOL / integer-valued FLOAT tensors of at most 8 elements: equality is exact",
+        "onnxruntime (optimizations disabled) implements the 41 operators, If, Loop and Scan as ONNX specifies; NumPy is the reference of the trace",
+        "the model author declares type/shape of graph outputs that shape inference could not type (after function calls) and imports the domains of called functions",
+        "explicit module names equal the attribute they are assigned to; modules are not shared between containers; every registered child is called",
+        "names repeated only between SIBLING subgraphs are counted as not unique (Graph.tla SSA), although runtimes accept them",
+    ]
+
+
+def replay(ctx, path):
+    with open(path) as f:
+        blob = json.load(f)
+    case = blob["case"]
+    print(blob.get("what"))
+    if case.get("kind") == "tree":
+        o = replay_tree({"hist": case["hist"], "pol": case["pol"], "rootkind": case["rootkind"], "rootname": case["rootname"]})
+        print(json.dumps({k: v for k, v in o.items() if k not in ("abstract", "nodes")}, indent=1))
+        pre = "" if case["rootname"] == "<none>" else case["rootname"] + "."
+        bad = o.get("err") or "run_err" in o or sorted(k for k, _ in o.get("inits", [])) != sorted(pre + k for k in o.get("state_dict", []))
+        return 1 if bad else 0
+    o = _trace_worker({"prog": case["prog"], "outs": case["outs"], "names": case["names"]})
+    print(json.dumps({k: v for k, v in o.items() if k not in ("abstract", "nodes")}, indent=1))
+    bad = o["outcome"] != "ok" or o["checker"] != "ok" or o["ort"] != o["np"]
+    return 1 if bad else 0
